@@ -74,7 +74,7 @@ pub fn c10() -> Vec<(&'static str, Vec<Op>)> {
                 wat("/b", 0, 2, 25),
             ],
         ),
-        // fixed by 764d4ae (was a known finding, zone `rename-unsynced-create-cross-dir`)
+        // fixed by b2ab43d (was a known finding, zone `rename-unsynced-create-cross-dir`)
         (
             "rename-new-file-into-other-dir",
             vec![
@@ -103,7 +103,7 @@ pub fn c10() -> Vec<(&'static str, Vec<Op>)> {
                 sync_dir("/d"),
             ],
         ),
-        // fixed by 764d4ae (was a known finding)
+        // fixed by b2ab43d (was a known finding)
         (
             "rename-back-across-dirs",
             vec![
@@ -229,7 +229,7 @@ pub fn c07() -> Vec<(&'static str, crate::real::Cfg, Vec<Op>)> {
             ],
         ),
         (
-            // fixed by 764d4ae: the stale creation of the old name was
+            // fixed by b2ab43d: the stale creation of the old name was
             // flushed later and resurrected an empty /a/a
             "publish-undurable-source-dst-then-src-synced",
             Cfg::default(),
